@@ -1,5 +1,6 @@
 import UF.Driver.Decode
 import UF.Spec.Priority
+import UF.Spec.Result
 /- Ops of work group C (C06–C09). Return `none` for ops of other groups. -/
 namespace UF.Ops
 
@@ -24,10 +25,39 @@ def opC07Matrix (args : List W) : String :=
     | _, _ => "bad-decode"
   | _ => "bad-arity"
 
+/-- Decode a list of rules and tag each with its position (in `listID`, which no modelled
+    function of group C reads) so that answers can be printed as indexes. -/
+def decIndexed (w : W) : Option (List NetRule) := do
+  let xs ← w.list?
+  let rs ← xs.mapM decNetRule
+  pure ((rs.zip (List.range rs.length)).map fun (r, i) => { r with listID := (i : Int) })
+
+def outIdx (rs : List NetRule) : String := "(" ++ ",".intercalate (rs.map fun r => toString r.listID) ++ ")"
+
+/-- `c08.negates <R b> <R r>`: model `negatesBadfilter`, spec the twin relation. -/
+def opC08Negates (args : List W) : String :=
+  match args with
+  | [b, r] =>
+    match decNetRule b, decNetRule r with
+    | some b, some r => outBool (negatesBadfilter b r) ++ " " ++ outBool (isTwin b r)
+    | _, _ => "bad-decode"
+  | _ => "bad-arity"
+
+/-- `c08.removebad (<R>…)`: indexes of the survivors; spec = the twin filter. -/
+def opC08RemoveBad (args : List W) : String :=
+  match args with
+  | [rs] =>
+    match decIndexed rs with
+    | some rs => outIdx (removeBadfilterRules rs) ++ " " ++ outIdx (specRemoveBadTwin rs)
+    | none => "bad-decode"
+  | _ => "bad-arity"
+
 def dispatchC (op : String) (args : List W) : Option String :=
   match op with
   | "c07.prio" => some (opC07Prio args)
   | "c07.matrix" => some (opC07Matrix args)
+  | "c08.negates" => some (opC08Negates args)
+  | "c08.removebad" => some (opC08RemoveBad args)
   | _ => none
 
 end UF.Ops
